@@ -100,6 +100,7 @@ fn main() {
     let args = Args::parse();
     let code = match args.pos.first().map(|s| s.as_str()) {
         Some("w1") => cmd_w1(&args),
+        Some("w1child") => cmd_w1child(&args),
         Some("replay") => cmd_replay(&args),
         Some("genvoice") => cmd_genvoice(&args),
         Some("run1") => cmd_run1(&args),
@@ -216,13 +217,8 @@ pub fn replay_in_fresh_process(path: &std::path::Path) -> (i32, String) {
     }
 }
 
-fn cmd_w1(args: &Args) -> i32 {
-    let Some(prop) = args.pos.get(1).and_then(|s| Prop::from_id(s)) else {
-        eprintln!("w1: need property id");
-        return 2;
-    };
+fn w1_cfg(args: &Args, prop: Prop) -> BatchCfg {
     let tier = args.get("tier", "quick");
-    let seed = seed_from(args);
     let thorough = tier == "thorough";
     let default_runs = match (prop, thorough) {
         (Prop::C02, false) => 30_000,
@@ -234,17 +230,35 @@ fn cmd_w1(args: &Args) -> i32 {
         (Prop::C20, false) => 50_000,
         (Prop::C20, true) => 3_000_000,
     };
-    let cfg = BatchCfg {
+    BatchCfg {
         prop,
         tier: tier.clone(),
-        verif_seed: seed,
+        verif_seed: seed_from(args),
         runs: args.num("runs", default_runs),
         workers: args.num("workers", 16) as usize,
         replay_dir: PathBuf::from(args.get("replay-dir", "/verif/replays")),
         determinism_sample: args.num("determinism", if thorough { 2000 } else { 300 }),
         sys_max_n: 3,
-        sys_variants: if thorough { 2 } else { 1 },
+        sys_variants: args.num("sys-variants", if thorough { 2 } else { 1 }) as usize,
+        dump_digests: args.opt.get("dump-digests").map(PathBuf::from),
+    }
+}
+
+fn cmd_w1child(args: &Args) -> i32 {
+    let Some(prop) = args.pos.get(1).and_then(|s| Prop::from_id(s)) else { return 2 };
+    let cfg = w1_cfg(args, prop);
+    let only = args.opt.get("only").map(|p| std::fs::read_to_string(p).unwrap_or_default().lines().filter_map(|l| l.trim().parse().ok()).collect::<Vec<u64>>());
+    runner::run_child(&cfg, args.num("shard", 0), args.num("of", 1).max(1), only, std::path::Path::new(&args.get("out", "/dev/null")))
+}
+
+fn cmd_w1(args: &Args) -> i32 {
+    let Some(prop) = args.pos.get(1).and_then(|s| Prop::from_id(s)) else {
+        eprintln!("w1: need property id");
+        return 2;
     };
+    let tier = args.get("tier", "quick");
+    let seed = seed_from(args);
+    let cfg = w1_cfg(args, prop);
     let known = Known::load(&args.get("known", "/verif/known_findings.txt"));
     let out = match runner::run_batch(&cfg) {
         Ok(o) => o,
